@@ -846,6 +846,17 @@ func (u *Unit) specCall(e *SExpr, ctx *specCtx) (Val, error) {
 		}
 		u.reg.declFun("str_lower", "Str", sStr)
 		return Val{T: sx("str_lower", x.T), Ty: tStrT}, nil
+	case "atof", "atofok":
+		x, err := arg(0)
+		if err != nil {
+			return Val{}, err
+		}
+		u.reg.declFun("atof", "Str", sReal)
+		u.reg.declFun("atof_ok", "Str", sBool)
+		if e.Name == "atof" {
+			return Val{T: sx("atof", x.T), Ty: tRealT}, nil
+		}
+		return Val{T: sx("atof_ok", x.T), Ty: tBoolT}, nil
 	case "upper":
 		x, err := arg(0)
 		if err != nil {
